@@ -1,6 +1,7 @@
 #include "recbackend.h"
 #include "recjson.h"
 #include "mp/flat/model_api_base.h"
+namespace mp { void RecDumpLinks(pre::BasicValuePresolver &); }  // recmodelmgr.cc (C19 extension)
 
 std::unique_ptr<mp::BasicBackend> CreateRecBackend() {
   return std::unique_ptr<mp::BasicBackend>{new mp::RecBackend()};
@@ -50,6 +51,7 @@ ArrayRef<double> RecBackend::GetObjectiveValues() {
 
 void RecBackend::Solve() {
   st_.Log("{\"ev\":\"solve\"}");
+  RecDumpLinks(GetValuePresolver());
   if (st_.throw_in_solve == 1) throw std::runtime_error("scripted runtime_error in Solve");
   if (st_.throw_in_solve == 2) throw mp::Error("scripted mp::Error in Solve", st_.code);
   if (st_.throw_in_solve == 3) throw mp::UnsupportedError("scripted UnsupportedError in Solve");
